@@ -139,6 +139,29 @@ pub(crate) trait StubWritable<C: speedy::Context>: speedy::Writable<C> {
 }
 impl<C: speedy::Context, T: speedy::Writable<C> + ?Sized> StubWritable<C> for T {}
 
+/// kani::stub target for speedy::Writer::write_slice.  The enum InterpreterSubmessage is
+/// niche-encoded; CBMC's symbolic executor cannot fold its discriminant once the value has been
+/// stored (the value is a union for CBMC), so Writable for InterpreterSubmessage is explored for
+/// all four variants at every INFO_* position.  Three are cheap; INFO_REPLY writes two
+/// Vec<Locator> of "unknown" length through write_slice (measured: +100 s per INFO_* submessage).
+/// No shape contains an INFO_REPLY: a slice of non-byte elements reaching the writer is reported
+/// as a FAILURE (panic), i.e. the solver has to prove that path infeasible instead of the
+/// symbolic executor unrolling it.
+pub(crate) trait StubWriter<C: speedy::Context>: speedy::Writer<C> {
+  fn stub_write_slice<T>(&mut self, slice: &[T]) -> Result<(), C::Error>
+  where
+    T: speedy::Writable<C>,
+  {
+    if T::speedy_is_primitive() && core::mem::size_of::<T>() == 1 {
+      let bytes = unsafe { core::slice::from_raw_parts(slice.as_ptr() as *const u8, slice.len()) };
+      self.write_bytes(bytes)
+    } else {
+      panic!("harness environment: a slice of non-byte elements (INFO_REPLY locator list) is serialised, no shape has one")
+    }
+  }
+}
+impl<C: speedy::Context, W: speedy::Writer<C> + ?Sized> StubWriter<C> for W {}
+
 /// The `Bytes` the parser is given.  Under Kani: the STATIC representation over the very same
 /// memory (clone = copy of pointer and length, drop = nothing); Submessage::read_from_buffer
 /// clones / splits / drops its input about ten times per submessage and each such operation on
@@ -274,6 +297,13 @@ macro_rules! msg_proof {
       kani::stub(
         speedy::Writable::write_to_vec_with_ctx,
         crate::rtps::message::verif_harness_c14_msg::StubWritable::stub_write_to_vec_with_ctx
+      )
+    )]
+    #[cfg_attr(
+      kani,
+      kani::stub(
+        speedy::Writer::write_slice,
+        crate::rtps::message::verif_harness_c14_msg::StubWriter::stub_write_slice
       )
     )]
     #[cfg_attr(kani, kani::stub(bytes::BytesMut::freeze, crate::rtps::message::verif_harness_c14_msg::stub_freeze))]
@@ -445,10 +475,11 @@ pub(crate) fn body_eq(sent: &SubmessageBody, got: &SubmessageBody) -> bool {
 /// kinds[i] / lens[i]: kind byte and body length (octetsToNextHeader) expected for
 /// submessage i; `aligned`: every body length must be a multiple of 4 (false only for a
 /// trailing DATA_FRAG, whose payload RustDDS does not pad).
-fn roundtrip(msg: &Message, e: Endianness, kinds: &[u8], lens: &[usize], aligned: bool) {
-  roundtrip_l(msg, e, kinds, lens, aligned, 2)
+pub(crate) const WIRE: usize = 136;
+fn roundtrip(msg: &Message, e: Endianness, kinds: &[u8], flags: &[u8], lens: &[usize], aligned: bool) {
+  roundtrip_l(msg, e, kinds, flags, lens, aligned, if kinds.len() == 1 { 2 } else { 4 })
 }
-fn roundtrip_l(msg: &Message, e: Endianness, kinds: &[u8], lens: &[usize], aligned: bool, level: u8) {
+fn roundtrip_l(msg: &Message, e: Endianness, kinds: &[u8], flags: &[u8], lens: &[usize], aligned: bool, level: u8) {
   let n = kinds.len();
   assert!(msg.submessages.len() == n, "the builder did not add one submessage per call");
   // the context handed to the top level must not matter: submessage headers carry their own flag
@@ -496,8 +527,83 @@ fn roundtrip_l(msg: &Message, e: Endianness, kinds: &[u8], lens: &[usize], align
   if level < 2 {
     return;
   }
-  // (2) the real parser
-  let b = bytes_of(&bytes);
+  // (2) the real parser.  The serialised bytes live in a heap Vec, where CBMC does not keep
+  // constants: kind / flags / octetsToNextHeader read back from there look symbolic to the
+  // symbolic executor and every Bytes::split_to of the parser becomes intractable.  The bytes
+  // are therefore copied into a stack array and the framing bytes -- each of which was just
+  // ASSERTED equal to its expected concrete value by the walk above -- are overwritten with
+  // that concrete value (nothing is assumed: only values proved equal are replaced).
+  let mut wire = [0u8; WIRE];
+  assert!(total <= WIRE, "harness: shape larger than the wire buffer");
+  wire[..total].copy_from_slice(&bytes[..total]);
+  wire[0] = b'R';
+  wire[1] = b'T';
+  wire[2] = b'P';
+  wire[3] = b'S';
+  assert!(
+    bytes[4] == ProtocolVersion::THIS_IMPLEMENTATION.major && bytes[5] == ProtocolVersion::THIS_IMPLEMENTATION.minor,
+    "protocol version bytes"
+  );
+  wire[4] = ProtocolVersion::THIS_IMPLEMENTATION.major;
+  wire[5] = ProtocolVersion::THIS_IMPLEMENTATION.minor;
+  off = 20;
+  i = 0;
+  while i < n {
+    let fl = flags[i] | if e == Endianness::LittleEndian { 1 } else { 0 };
+    assert!(bytes[off + 1] == fl, "flags byte differs from what the shape prescribes");
+    wire[off] = kinds[i];
+    wire[off + 1] = fl;
+    let lb = if e == Endianness::LittleEndian {
+      (lens[i] as u16).to_le_bytes()
+    } else {
+      (lens[i] as u16).to_be_bytes()
+    };
+    wire[off + 2] = lb[0];
+    wire[off + 3] = lb[1];
+    off += 4 + lens[i];
+    i += 1;
+  }
+  if level == 4 {
+    // (2') Message::read_from_buffer's loop unrolled by the harness: the real
+    // Submessage::read_from_buffer is called on the real rest of the message at every
+    // submessage boundary; between the calls the (asserted) position is replaced by its
+    // concrete twin so that the next call starts from a constant offset.
+    let whole = bytes_of(&wire[..total]);
+    let hdr = must!(Header::read_from_buffer(&whole), "RTPS header does not parse");
+    assert!(hdr.valid(), "emitted RTPS header is not valid");
+    assert!(hdr == msg.header, "RTPS header differs after write/read");
+    let mut off = 20;
+    i = 0;
+    while i < n {
+      let mut rest = whole.slice(off..);
+      let before = rest.len();
+      let r = must!(Submessage::read_from_buffer(&mut rest), "emitted submessage does not parse");
+      assert!(
+        before - rest.len() == 4 + lens[i],
+        "the parser does not continue at the next submessage header"
+      );
+      match &r {
+        Some(g) => {
+          let s = &msg.submessages[i];
+          assert!(g.header == s.header, "submessage header (kind, flags, length) differs after write/read");
+          assert!(body_eq(&s.body, &g.body), "submessage body differs after write/read");
+          match &g.original_bytes {
+            Some(ob) => assert!(ob.len() == 4 + lens[i], "original_bytes is not header + body"),
+            None => panic!("parsed submessage without original_bytes"),
+          }
+        }
+        None => panic!("emitted submessage is skipped by the parser"),
+      }
+      core::mem::forget(r);
+      core::mem::forget(rest);
+      off += 4 + lens[i];
+      i += 1;
+    }
+    assert!(off == whole.len());
+    core::mem::forget(whole);
+    return;
+  }
+  let b = bytes_of(&wire[..total]);
   let back = must!(Message::read_from_buffer(&b), "emitted message does not parse");
   assert!(back.header == msg.header, "RTPS header differs after write/read");
   assert!(
@@ -517,13 +623,6 @@ fn roundtrip_l(msg: &Message, e: Endianness, kinds: &[u8], lens: &[usize], align
     i += 1;
   }
 
-  if level < 3 {
-    core::mem::forget(back);
-    return;
-  }
-  // (3) canonical bytes are reproduced from the parsed message
-  let again = must!(back.write_to_vec_with_ctx(e), "parsed message does not serialise");
-  assert!(bytes_eq(&bytes, &again), "write(read(b)) != b for a message RustDDS built itself");
   core::mem::forget(back);
   core::mem::forget(b);
 }
@@ -550,7 +649,7 @@ fn hb(b: MessageBuilder, e: Endianness, fin: bool, live: bool) -> MessageBuilder
 /// [HEARTBEAT] alone (Writer::handle_heartbeat_tick ...), flag combination concrete
 fn shape_hb(e: Endianness, fin: bool, live: bool) {
   let msg = hb(MessageBuilder::new(), e, fin, live).add_header_and_build(any_guid_prefix());
-  roundtrip(&msg, e, &[0x07], &[28], true);
+  roundtrip(&msg, e, &[0x07], &[(fin as u8) << 1 | (live as u8) << 2], &[28], true);
   vk_cover!(msg.header.guid_prefix.bytes[11] == 0xfe, "a guid prefix");
   core::mem::forget(msg);
 }
@@ -563,7 +662,7 @@ fn shape_dst_ts_hb(e: Endianness, with_ts: bool) {
     .dst_submessage(e, any_guid_prefix())
     .ts_msg(e, ts);
   let msg = hb(b, e, false, false).add_header_and_build(any_guid_prefix());
-  roundtrip(&msg, e, &[0x0e, 0x09, 0x07], &[12, if with_ts { 8 } else { 0 }, 28], true);
+  roundtrip(&msg, e, &[0x0e, 0x09, 0x07], &[0, if with_ts { 0 } else { 2 }, 0], &[12, if with_ts { 8 } else { 0 }, 28], true);
   vk_cover!(msg.header.guid_prefix.bytes[0] == 0x52, "a guid prefix");
   core::mem::forget(msg);
 }
@@ -572,7 +671,7 @@ fn shape_dst_ts_hb(e: Endianness, with_ts: bool) {
 fn shape_ts0_hb(e: Endianness) {
   let b = MessageBuilder::new().ts_msg(e, None);
   let msg = hb(b, e, true, false).add_header_and_build(any_guid_prefix());
-  roundtrip(&msg, e, &[0x09, 0x07], &[0, 28], true);
+  roundtrip(&msg, e, &[0x09, 0x07], &[2, 2], &[0, 28], true);
   vk_cover!(msg.header.guid_prefix.bytes[0] == 0x52, "a guid prefix");
   core::mem::forget(msg);
 }
@@ -583,7 +682,7 @@ fn shape_dst_ts0(e: Endianness) {
     .dst_submessage(e, any_guid_prefix())
     .ts_msg(e, None)
     .add_header_and_build(any_guid_prefix());
-  roundtrip(&msg, e, &[0x0e, 0x09], &[12, 0], true);
+  roundtrip(&msg, e, &[0x0e, 0x09], &[0, 2], &[12, 0], true);
   vk_cover!(msg.header.guid_prefix.bytes[0] == 0x52, "a guid prefix");
   core::mem::forget(msg);
 }
@@ -612,7 +711,7 @@ fn shape_ts_gap(e: Endianness, nb: u32) {
   };
   let msg = b.add_header_and_build(any_guid_prefix());
   let words = ((nb + 31) / 32) as usize;
-  roundtrip(&msg, e, &[0x09, 0x08], &[8, 28 + 4 * words], true);
+  roundtrip(&msg, e, &[0x09, 0x08], &[0, 0], &[8, 28 + 4 * words], true);
   vk_cover!(msg.header.guid_prefix.bytes[0] == 0x52, "a guid prefix");
   core::mem::forget(msg);
 }
@@ -647,7 +746,7 @@ fn shape_dst_acknack(e: Endianness, nb: u32, fin: bool) {
   }
   msg.add_submessage(acknack.create_submessage(flags));
   let words = ((nb + 31) / 32) as usize;
-  roundtrip(&msg, e, &[0x0e, 0x06], &[12, 24 + 4 * words], true);
+  roundtrip(&msg, e, &[0x0e, 0x06], &[0, (fin as u8) << 1], &[12, 24 + 4 * words], true);
   vk_cover!(msg.header.guid_prefix.bytes[0] == 0x52, "a guid prefix");
   core::mem::forget(msg);
 }
@@ -674,7 +773,7 @@ fn shape_dst_nackfrag2(e: Endianness, nb1: u32, nb2: u32) {
   }
   let w1 = ((nb1 + 31) / 32) as usize;
   let w2 = ((nb2 + 31) / 32) as usize;
-  roundtrip(&msg, e, &[0x0e, 0x12, 0x12], &[12, 28 + 4 * w1, 28 + 4 * w2], true);
+  roundtrip(&msg, e, &[0x0e, 0x12, 0x12], &[0, 0, 0], &[12, 28 + 4 * w1, 28 + 4 * w2], true);
   vk_cover!(msg.header.guid_prefix.bytes[0] == 0x52, "a guid prefix");
   core::mem::forget(msg);
 }
@@ -715,7 +814,7 @@ fn shape_ts_data_hb(e: Endianness, n: usize) {
     .ts_msg(e, Some(any_ts()))
     .data_msg(&cc, any_entity_id(), cc.writer_guid, e, None);
   let msg = hb(b, e, false, false).add_header_and_build(cc.writer_guid.prefix);
-  roundtrip(&msg, e, &[0x09, 0x15, 0x07], &[8, 20 + round4(4 + n), 28], true);
+  roundtrip(&msg, e, &[0x09, 0x15, 0x07], &[0, 4, 0], &[8, 20 + round4(4 + n), 28], true);
   vk_cover!(msg.header.guid_prefix.bytes[0] == 0x52, "a guid prefix");
   core::mem::forget(msg);
   core::mem::forget(cc);
@@ -742,7 +841,7 @@ fn shape_ts_datafrag(e: Endianness, n: usize, fs: u16, frag: u32) {
   let from = (frag as usize - 1) * fs as usize;
   let to = core::cmp::min(frag as usize * fs as usize, total);
   // a DATA_FRAG is the last submessage of its message; RustDDS does not pad its payload
-  roundtrip(&msg, e, &[0x09, 0x16], &[8, 32 + (to - from)], false);
+  roundtrip(&msg, e, &[0x09, 0x16], &[0, 0], &[8, 32 + (to - from)], false);
   vk_cover!(msg.header.guid_prefix.bytes[0] == 0x52, "a guid prefix");
   core::mem::forget(msg);
   core::mem::forget(cc);
@@ -782,197 +881,3 @@ msg_proof!(c14_msg_ts_datafrag_f1_le, 14, shape_ts_datafrag(LE, 5, 4, 1));
 msg_proof!(c14_msg_ts_datafrag_f2_be, 14, shape_ts_datafrag(BE, 5, 4, 2));
 msg_proof!(c14_msg_ts_datafrag_f3_le, 14, shape_ts_datafrag(LE, 5, 4, 3));
 
-// ---- DEBUG (temporary)
-fn dbg_build() -> Message {
-  hb(MessageBuilder::new(), LE, false, false).add_header_and_build(any_guid_prefix())
-}
-msg_proof!(c14_dbg1, 14, {
-  let msg = dbg_build();
-  let bytes = must!(msg.write_to_vec_with_ctx(LE), "ser");
-  assert!(bytes.len() == 52);
-  assert!(bytes[20] == 0x07 && bytes[22] == 28);
-  vk_cover!(bytes[19] == 3, "x");
-  core::mem::forget(msg);
-});
-msg_proof!(c14_dbg2, 14, {
-  let msg = dbg_build();
-  let bytes = must!(msg.write_to_vec_with_ctx(LE), "ser");
-  assert!(bytes.len() == 52);
-  let b = bytes_of(&bytes);
-  let back = must!(Message::read_from_buffer(&b), "parse");
-  assert!(back.submessages.len() == 1);
-  vk_cover!(bytes[19] == 3, "x");
-  core::mem::forget(msg);
-  core::mem::forget(back);
-  core::mem::forget(b);
-});
-msg_proof!(c14_dbg3, 14, {
-  let mut buf = [0u8; 52];
-  let mut i = 0;
-  while i < 52 { let w = vk::any::<u64>().to_le_bytes(); let mut j = 0; while j < 8 && i + j < 52 { buf[i + j] = w[j]; j += 1; } i += 8; }
-  buf[0] = b'R'; buf[1] = b'T'; buf[2] = b'P'; buf[3] = b'S'; buf[4] = 2;
-  buf[20] = 7; buf[21] = 1; buf[22] = 28; buf[23] = 0;
-  let b = bytes_of(&buf);
-  let back = must!(Message::read_from_buffer(&b), "parse");
-  assert!(back.submessages.len() == 1);
-  vk_cover!(buf[19] == 3, "x");
-  core::mem::forget(back);
-  core::mem::forget(b);
-});
-msg_proof!(c14_dbg4, 14, {
-  let msg = dbg_build();
-  let sm = &msg.submessages[0];
-  let bytes = must!(sm.write_to_vec_with_ctx(LE), "ser");
-  assert!(bytes.len() == 32);
-  vk_cover!(bytes[19] == 3, "x");
-  core::mem::forget(msg);
-});
-msg_proof!(c14_dbg5, 14, {
-  let msg = dbg_build();
-  let sm = &msg.submessages[0];
-  assert!(matches!(&sm.body, SubmessageBody::Writer(WriterSubmessage::Heartbeat(..))));
-  assert!(sm.header.flags == 1);
-  assert!(core::mem::size_of::<Submessage>() != 96, "size 96");
-  assert!(core::mem::size_of::<Submessage>() != 104, "size 104");
-  assert!(core::mem::size_of::<Submessage>() != 112, "size 112");
-  assert!(core::mem::size_of::<Submessage>() != 120, "size 120");
-  assert!(core::mem::size_of::<Submessage>() != 128, "size 128");
-  assert!(core::mem::size_of::<Submessage>() != 136, "size 136");
-  assert!(core::mem::size_of::<Submessage>() != 144, "size 144");
-  assert!(core::mem::size_of::<Submessage>() != 152, "size 152");
-  assert!(core::mem::size_of::<Submessage>() != 160, "size 160");
-  assert!(core::mem::size_of::<Submessage>() != 168, "size 168");
-  assert!(core::mem::size_of::<Submessage>() != 176, "size 176");
-  assert!(core::mem::size_of::<Submessage>() != 184, "size 184");
-  assert!(core::mem::size_of::<Submessage>() != 192, "size 192");
-  assert!(core::mem::size_of::<Submessage>() != 200, "size 200");
-  assert!(core::mem::size_of::<Submessage>() != 208, "size 208");
-  assert!(core::mem::size_of::<Submessage>() != 216, "size 216");
-  assert!(core::mem::size_of::<Submessage>() != 224, "size 224");
-  assert!(core::mem::size_of::<Submessage>() != 232, "size 232");
-  assert!(core::mem::size_of::<Submessage>() != 240, "size 240");
-  assert!(core::mem::size_of::<Submessage>() != 248, "size 248");
-  assert!(core::mem::size_of::<Submessage>() != 256, "size 256");
-  assert!(core::mem::size_of::<Submessage>() != 264, "size 264");
-  assert!(core::mem::size_of::<Submessage>() != 272, "size 272");
-  assert!(core::mem::size_of::<Submessage>() != 280, "size 280");
-  assert!(core::mem::size_of::<Submessage>() != 288, "size 288");
-  assert!(core::mem::size_of::<Submessage>() != 296, "size 296");
-  vk_cover!(msg.header.guid_prefix.bytes[3] == 3, "x");
-  core::mem::forget(msg);
-});
-fn dbg_hb() -> Heartbeat {
-  Heartbeat { reader_id: any_entity_id(), writer_id: any_entity_id(), first_sn: any_sn(), last_sn: any_sn(), count: vk::any::<i32>() }
-}
-msg_proof!(c14_dbg6, 14, {
-  let h = dbg_hb();
-  let bytes = must!(h.write_to_vec_with_ctx(LE), "ser");
-  assert!(bytes.len() == 28);
-  vk_cover!(bytes[19] == 3, "x");
-});
-msg_proof!(c14_dbg7, 14, {
-  let h = dbg_hb();
-  let sm = h.create_submessage(BitFlags::<HEARTBEAT_Flags>::from_endianness(LE)).unwrap();
-  let bytes = must!(sm.write_to_vec_with_ctx(LE), "ser");
-  assert!(bytes.len() == 32);
-  vk_cover!(bytes[19] == 3, "x");
-  core::mem::forget(sm);
-});
-msg_proof!(c14_dbg8, 14, {
-  let h = Header::new(any_guid_prefix());
-  let bytes = must!(h.write_to_vec_with_ctx(LE), "ser");
-  assert!(bytes.len() == 20);
-  vk_cover!(bytes[19] == 3, "x");
-});
-
-#[cfg(kani)]
-#[kani::proof]
-#[kani::unwind(14)]
-#[kani::stub(std::fmt::format, crate::verif_env::stub_format)]
-#[kani::stub(std::vec::Vec::push, crate::rtps::message::verif_harness_c14_msg::stub_push)]
-fn c14_dbg13() {
-  let mut a = Slots::new();
-  let mut b = Slots::new();
-  unsafe { SM_PTRS[0] = core::ptr::addr_of_mut!(a.s0); SM_PTRS[1] = core::ptr::addr_of_mut!(b.s0); }
-  let msg = dbg_build();
-  let sm = &msg.submessages[0];
-  assert!(matches!(&sm.body, SubmessageBody::Writer(WriterSubmessage::Heartbeat(..))));
-  assert!(sm.header.flags == 1);
-  core::mem::forget(msg);
-  core::mem::forget(a);
-  core::mem::forget(b);
-}
-fn dbg_buf() -> [u8; 52] {
-  let mut buf = [0u8; 52];
-  let mut i = 0;
-  while i < 52 { let w = vk::any::<u64>().to_le_bytes(); let mut j = 0; while j < 8 && i + j < 52 { buf[i + j] = w[j]; j += 1; } i += 8; }
-  buf[0] = b'R'; buf[1] = b'T'; buf[2] = b'P'; buf[3] = b'S'; buf[4] = 2;
-  buf[20] = 7; buf[21] = 1; buf[22] = 28; buf[23] = 0;
-  buf
-}
-msg_proof!(c14_dbg3a, 60, {
-  let buf = dbg_buf();
-  let b = bytes_of(&buf);
-  let h = must!(Header::read_from_buffer(&b), "parse");
-  assert!(h.valid());
-  vk_cover!(buf[19] == 3, "x");
-  core::mem::forget(b);
-});
-msg_proof!(c14_dbg3b, 60, {
-  let buf = dbg_buf();
-  let b = bytes_of(&buf);
-  let mut rest = b.slice(20..);
-  let r = must!(Submessage::read_from_buffer(&mut rest), "parse");
-  assert!(r.is_some());
-  assert!(rest.len() == 0);
-  vk_cover!(buf[19] == 3, "x");
-  core::mem::forget(b);
-  core::mem::forget(r);
-  core::mem::forget(rest);
-});
-msg_proof!(c14_dbg3c, 60, {
-  let buf = dbg_buf();
-  vk_cover!(buf[19] == 3, "x");
-});
-msg_proof!(c14_dbg3d, 60, {
-  let buf = dbg_buf();
-  let h = must!(Heartbeat::read_from_buffer_with_ctx(LE, &buf[24..52]), "parse");
-  assert!(h.count == i32::from_le_bytes([buf[48], buf[49], buf[50], buf[51]]));
-  vk_cover!(buf[19] == 3, "x");
-});
-
-fn dbg_level(l: u8) {
-  let msg = dbg_build();
-  roundtrip_l(&msg, LE, &[0x07], &[28], true, l);
-  vk_cover!(msg.header.guid_prefix.bytes[11] == 0xfe, "a guid prefix");
-  core::mem::forget(msg);
-}
-msg_proof!(c14_dbgl1, 14, dbg_level(1));
-msg_proof!(c14_dbgl2, 14, dbg_level(2));
-msg_proof!(c14_dbgl3, 14, dbg_level(3));
-fn dbg_one(which: u8) {
-  let e = LE;
-  let mut b = MessageBuilder::new();
-  let (k, l): (u8, usize) = match which {
-    0 => { b = b.dst_submessage(e, any_guid_prefix()); (0x0e, 12) }
-    1 => { b = b.dst_submessage(e, GuidPrefix { bytes: [1, 2, 3, 4, 5, 6, 7, 8, 9, 10, 11, 12] }); (0x0e, 12) }
-    2 => { b = b.ts_msg(e, None); (0x09, 0) }
-    3 => { b = b.ts_msg(e, Some(any_ts())); (0x09, 8) }
-    4 => {
-      let a = AckNack { reader_id: any_entity_id(), writer_id: any_entity_id(), reader_sn_state: any_sn_set(0), count: vk::any::<i32>() };
-      b.submessages.push(a.create_submessage(BitFlags::<ACKNACK_Flags>::from_endianness(e)));
-      (0x06, 24)
-    }
-    _ => { b = b.gap_msg_before(any_sn(), any_entity_id(), e, GUID::new(any_guid_prefix(), any_entity_id())); (0x08, 28) }
-  };
-  let msg = b.add_header_and_build(any_guid_prefix());
-  roundtrip_l(&msg, e, &[k], &[l], true, 1);
-  vk_cover!(msg.header.guid_prefix.bytes[11] == 0xfe, "a guid prefix");
-  core::mem::forget(msg);
-}
-msg_proof!(c14_dbgo0, 14, dbg_one(0));
-msg_proof!(c14_dbgo1, 14, dbg_one(1));
-msg_proof!(c14_dbgo2, 14, dbg_one(2));
-msg_proof!(c14_dbgo3, 14, dbg_one(3));
-msg_proof!(c14_dbgo4, 14, dbg_one(4));
-msg_proof!(c14_dbgo5, 14, dbg_one(5));
